@@ -198,7 +198,7 @@ CLAIMED.update({
               'nothing a listener asked for on a live process).'),
     'C05': pm('Theorems C05_nothing_runs_while_paused (no activation in any history starts with paused = true), C05_pause_total, '
               'C05_play_total, C05_play_unpauses, C05_play_cancels_pending_pause. With requests made by listeners during '
-              'transitions (model PMF.L): C05_listener_no_stale_interruption, C05_listener_new_wait_not_interrupted (the closing part '
+              'transitions (model PMF.L): C05_listener_nothing_runs_while_paused (every program, plan, history), C05_listener_no_stale_interruption, C05_listener_new_wait_not_interrupted (the closing part '
               'of a step interrupts no wait future), C05_listener_play_unpauses, C05_listener_requests_deferred, '
               'C05_listener_play_retracts. Transparency (same steps, outputs, result as the '
               'uninterrupted run) and status restoration are decided by the correspondence and the monitors against the '
